@@ -1,6 +1,7 @@
 package main
 
 import (
+	"encoding/json"
 	"math"
 	"math/rand"
 	"time"
@@ -11,11 +12,12 @@ import (
 // type-directed, boundary-heavy generators; every choice derives from one PRNG
 
 type gen struct {
-	r        *rand.Rand
-	known    []rscp.Tag
-	byType   map[rscp.DataType][]rscp.Tag
-	reqTags  []rscp.Tag
-	respTags []rscp.Tag
+	r         *rand.Rand
+	known     []rscp.Tag
+	byType    map[rscp.DataType][]rscp.Tag
+	reqTags   []rscp.Tag
+	reqByType map[rscp.DataType][]rscp.Tag
+	respTags  []rscp.Tag
 }
 
 var definedTypes = []rscp.DataType{rscp.None, rscp.Bool, rscp.Char8, rscp.UChar8, rscp.Int16, rscp.UInt16, rscp.Int32,
@@ -23,12 +25,13 @@ var definedTypes = []rscp.DataType{rscp.None, rscp.Bool, rscp.Char8, rscp.UChar8
 	rscp.Timestamp, rscp.ByteArray, rscp.Error}
 
 func newGen(seed int64) *gen {
-	g := &gen{r: rand.New(rand.NewSource(seed)), byType: map[rscp.DataType][]rscp.Tag{}}
+	g := &gen{r: rand.New(rand.NewSource(seed)), byType: map[rscp.DataType][]rscp.Tag{}, reqByType: map[rscp.DataType][]rscp.Tag{}}
 	g.known = rscp.TagValues()
 	for _, t := range g.known {
 		g.byType[t.DataType()] = append(g.byType[t.DataType()], t)
 		if rscp.VerifIsRequest(t) {
 			g.reqTags = append(g.reqTags, t)
+			g.reqByType[t.DataType()] = append(g.reqByType[t.DataType()], t)
 		} else {
 			g.respTags = append(g.respTags, t)
 		}
@@ -220,8 +223,22 @@ func (g *gen) tree() []rscp.Message {
 	return g.msgs(depth, n, &budget)
 }
 
+// defined types whose underlying type is one of the table types: not what the tables ask for
+type namedString string
+type namedBytes []byte
+type namedMsgs []rscp.Message
+type namedBool bool
+type namedU8 uint8
+type namedI32 int32
+
+var namedValues = []interface{}{json.Number("12"), json.RawMessage("1"), namedString("x"), namedString(""), namedBytes{1, 2}, namedBytes(nil),
+	namedMsgs{}, namedMsgs(nil), namedBool(true), namedU8(1), namedI32(1), time.Duration(5), rscp.AuthLevel(1)}
+
 // a Go value whose type is none of the table types
 func (g *gen) alienValue() interface{} {
+	if g.chance(0.3) {
+		return namedValues[g.pick(len(namedValues))]
+	}
 	switch g.pick(12) {
 	case 8:
 		s := "pointer to a string"
